@@ -548,12 +548,29 @@ mkfunc(struct decl *decl, char *name, struct type *t, struct scope *s)
 	return f;
 }
 
+/* every label named by a goto must be defined in the function (C11 6.8.6.1p1) */
+static void
+checkgotos(struct func *f)
+{
+	struct gotolabel *g;
+	size_t i;
+
+	for (i = 0; i < f->gotos.cap; ++i) {
+		if (!f->gotos.keys[i].str)
+			continue;
+		g = f->gotos.vals[i];
+		if (!g->defined)
+			error(&tok.loc, "use of undefined label '%s'", g->label->label.u.name);
+	}
+}
+
 void
 delfunc(struct func *f)
 {
 	struct block *b;
 	struct inst **inst;
 
+	checkgotos(f);
 	while (b = f->start) {
 		f->start = b->next;
 		arrayforeach (&b->insts, inst)
@@ -1281,6 +1298,7 @@ emitfunc(struct func *f, bool global)
 	struct decl *p;
 	struct value *v;
 
+	checkgotos(f);
 	if (f->end->jump.kind == JUMP_NONE) {
 		v = NULL;
 		/* implicitly return 0 from main if we reach the end of the function */
